@@ -967,9 +967,10 @@ def run_checks(prop, ctx, vlib, want=("C08", "C01")):
     import jx_paths
     r3p = jx_paths.stage_paths(vlib, impl, model, rng, tier, known_ids, want, bump, stats)
     r3a = jx_paths.stage_attrs(vlib, impl, model, rng, tier, bump, stats)
+    r3d = jx_paths.stage_detect(vlib, impl, model, rng, tier, bump, stats, autoutf_detect, PYCODEC, BOM)
     for k in ("failing", "diffs", "notes", "samples"):
-        r3[k] = r3[k] + r3x[k] + r3p[k] + r3a[k]
-    r3["evaluations"] += r3x["evaluations"] + r3p["evaluations"] + r3a["evaluations"]
+        r3[k] = r3[k] + r3x[k] + r3p[k] + r3a[k] + r3d[k]
+    r3["evaluations"] += r3x["evaluations"] + r3p["evaluations"] + r3a["evaluations"] + r3d["evaluations"]
     failing += r3["failing"]
     diffs += r3["diffs"]
     notes += r3["notes"]
